@@ -1,6 +1,6 @@
 (* Property C06 (the output file's packets) -- statements only: TCP conversation and segments, UDP datagrams, IPv4 and IPv6 headers, and the container. *)
 From Coq Require Import ZArith List Bool.
-Require Import PyLib Checksum Rfc1071 C11P Packet Reassembly TlsSession OutputBuilder Frames Reader BuilderP FramesP FramesUdpP PcapngWriter PcapngSpec PcapngReader C12P WriterP.
+Require Import PyLib Checksum Rfc1071 C11P Packet Reassembly TlsSession OutputBuilder Frames Reader BuilderP FramesP FramesUdpP PcapngWriter PcapngSpec PcapngReader C12P WriterP BuilderTotalP.
 Import ListNotations.
 Open Scope Z_scope.
 
@@ -10,6 +10,14 @@ Theorem C06_conversation : forall t segs, t <> [] -> has_meta t -> build t = Ok 
   std_reassemble segs = Some (side_stream false t, side_stream true t).
 Proof. exact build_reassembles. Qed.
 Print Assumptions C06_conversation.
+
+(* ... with the premises discharged for what a session exports: the records a session is handed have carriers (C03_records_have_carriers),
+   every exported entry carries its record, so the builder succeeds and the conversation reads back as the two exported streams *)
+Theorem C06_session_conversation : forall C tbl parts keylog rs s s' out, out <> [] -> Forall (fun x : bool * tls_record => r_meta (snd x) <> []) rs ->
+  C01SessionP.session_run C tbl parts keylog s rs = Ok (s', out) ->
+  exists segs, build out = Ok segs /\ std_reassemble segs = Some (side_stream false out, side_stream true out).
+Proof. exact session_conversation. Qed.
+Print Assumptions C06_session_conversation.
 
 (* a record of n bytes carried by k input packets is re-split into at most k segments whose concatenation is the record *)
 Theorem C06_splitting : forall d k parts, 1 <= k -> split_parts d k = Ok parts -> concat parts = d /\ (length parts <= Z.to_nat k)%nat.
